@@ -12,7 +12,7 @@ import (
 type (
 	WaitGroup = sync.WaitGroup
 	Once      = sync.Once
-	Pool      = sync.Pool
+	Pool      = core.Pool
 	Map       = sync.Map
 	Locker    = sync.Locker
 )
